@@ -8,8 +8,29 @@ from vlib import Break
 MODULE = "GoNfsd.Props.C03"
 
 
+def failing_slot_functions(ctx):
+    """Concrete call sites: the functions of fstxn that fetch a cache slot without holding the inode's lock."""
+    import re
+    f = os.path.join(ctx.scratch, "slots.lean")
+    open(f, "w").write("import GoNfsd.Gen.Skeleton\nopen GoNfsd.Model.Skeleton GoNfsd.Gen.Skeleton\n"
+                       "#eval slotUses.filterMap fun f => if slotCheck f then none else some s!\"SLOT {f.1} {f.2.map (·.2)}\"\n")
+    rc, out = vlib.run(["lake", "build", "GoNfsd.Gen.Skeleton"], cwd=vlib.LEAN, timeout=600)
+    if rc != 0:
+        return []
+    rc, out = vlib.run(["lake", "env", "lean", f], cwd=vlib.LEAN, timeout=600)
+    return re.findall(r"SLOT (\S+) \[([^\]]*)\]", out)
+
+
 def run(ctx):
-    ok_go, ok_drv = seqlib.build_and_prove(ctx, MODULE)
+    ok_go, ok_drv = seqlib.build_and_prove(ctx, MODULE, extra_parts=["skeleton"])
+    if any(b.kind == "proof" for b in ctx.breaks):
+        for name, calls in failing_slot_functions(ctx)[:3]:
+            ctx.add_violation("slot-before-lock:" + name,
+                              "fstxn.%s touches the inode cache without holding the inode's lock: calls in source order: %s" % (name, calls),
+                              {"input": {"function": "fstxn." + name, "calls_in_source_order": calls},
+                               "how": "regenerated table Gen/Skeleton.slotUses checked by Model/Skeleton.slotCheck: a slot pointer fetched before the lock is granted may belong to an entry "
+                                      "the LRU evicted meanwhile; a request that waits for the inode while more than 100 other inodes are used then works on an orphaned object and keeps "
+                                      "what an aborting holder had changed in place"})
     if ok_go:
         configs = ([["-hists", "30", "-clients", "8", "-ops", "200", "-yield", str(y)] for y in (0, 20, 50, 80)] if ctx.tier == "thorough"
                    else [["-hists", "6", "-clients", "6", "-ops", "120", "-yield", "30"], ["-hists", "3", "-clients", "3", "-ops", "150", "-yield", "70"]])
@@ -84,7 +105,8 @@ def run(ctx):
                 ctx.breaks.append(b)
     vlib.finish(
         ctx, "proof",
-        "theorems: strict two-phase locking over an exclusive lock manager orders conflicting transactions by commit point, and commit order respects real time. The hypotheses "
+        "theorems: strict two-phase locking over an exclusive lock manager orders conflicting transactions by commit point, and commit order respects real time; "
+        "what the lock protects is fetched under the lock (slots_are_fetched_under_the_lock, on the call order regenerated from package fstxn). The hypotheses "
         "are checked on the recorded event trace of every run; every concurrent history is replayed in the observed commit order on the sequential reference model (C02) and "
         "every reply must match — the witness order comes from the theorem, no search over orders",
         "concurrent histories: N clients on a shared pool of 8 names in the root and shared sub-directories (create/mkdir/symlink/lookup/remove/rmdir, same- and cross-directory renames "
